@@ -81,14 +81,11 @@ theorem http_query_fields (t : Torrent) (hwf : t.wf) (event : Nat) (numWant : In
   · by_cases he : event = 0 <;> by_cases ht : tid = "" <;> simp [httpQuery, lookup, he, ht]
   · by_cases he : event = 0 <;> by_cases ht : tid = "" <;> simp [httpQuery, lookup, he, ht, keyBytes]
 
-/-- Non-vacuity: a well-formed torrent whose peer id does not end in zero bytes. -/
-def sampleTorrent : Torrent :=
-  { infoHash := List.replicate 20 0xab, peerID := (List.range 20).map (· + 0x41), port := 6881,
-    up := 1, down := 2 ^ 40, left := 0 }
-
+/-- Non-vacuity: `sampleTorrent` is well-formed and its peer id does not end in zero bytes. -/
 example : sampleTorrent.wf := by decide
 example : (decodeAnnounce (encodeAnnounce 7 9 sampleTorrent 2 200 [0x2f, 0x61])).map (·.1.peerID)
     = some sampleTorrent.peerID := by decide
+example : lookup "key" (httpQuery sampleTorrent 2 200 "") = some (.hexs [0x51, 0x52, 0x53, 0x54]) := by decide
 
 /-- The historical defect (#10): the pre-fix builder wrote the zero key *into* the peer id, so the
 tracker saw a peer id whose last four bytes were zero (and key 0) — the identity oracle rejects it. -/
@@ -152,6 +149,11 @@ theorem stopped_only_if_announced {τ : Type} (c : Cfg) (l : List (τ × List (I
   rcases run_hasAnnounced storeFixed c tr (init c) hhas with h | h
   · simp [init] at h
   · exact h
+
+open Rain.Announcer in
+/-- Non-vacuity: of two trackers, only the one that replied is handed to the stop announcer. -/
+example : stopTargets ([("a", [(0, In.start false), (1, In.response 1800 0)]), ("b", [(0, In.start false), (1, In.error 0 3)])].map
+    fun p => (p.1, (run ⟨60, 5, 40⟩ (init ⟨60, 5, 40⟩) p.2).1)) = ["a"] := by decide
 
 open Rain.Announcer in
 /-- **interval_floor.** For every history with non-decreasing time stamps and every reply
